@@ -61,7 +61,7 @@ pub fn spec(id: &str) -> Option<Spec> {
         "C11" => Some(Spec {
             id: "C11",
             level: "exploration",
-            rule: "A case is a history of document kinds for one target (11 targets x 12-26 kinds - among the targets a map visitor that returns after the first entry, a root type that turns an inner error into a default, an enum whose variants are selected by tags with empty or null-like content -: valid shapes, empty, explicit null, root block scalars incl. empty ones, quoted empty strings, defining anchors, defining an anchor and then failing, aliasing an anchor of an earlier document, aliasing an anchor defined nowhere behind a type-level error, a byte-order mark in front of a later document (known finding F57), type error early / late, surplus / missing element, duplicate key, three syntax errors, 60 aliases of one anchor - under every per-document limit, two such documents are over the alias/anchor ratio), with seeded end markers / trailing comments / start marker / implicit starts after `...`, a quarter of them under alias limits that one document stays below but two together exceed, and 5 chunk schedules. For the validated struct target the garde / validator batch (str and slice) and iterator entry points are compared with the plain ones with validation applied per document (incl. runs of null documents and a document failing validation). ALL histories up to length 3 (thorough: 4) are enumerated per target, then random histories of length 2..8. Model: every document is classified on its own (raw parser: syntax error / empty-or-null; from_str alone: value or type-level error); batch, slice-batch, read, read_with_options under each schedule and the four single-document entry points are compared with the list of per-document results and the resynchronisation rules. One evaluation = one library call on the stream. Non-trivial = iterator executions on streams of at least two documents; distinct = distinct (stream text, request trace) digests.".into(),
+            rule: "A case is a history of document kinds for one target (15 targets x 12-26 kinds - among the targets a map visitor that returns after the first entry, a root type that turns an inner error into a default, an enum whose variants are selected by tags with empty or null-like content -: valid shapes, empty, explicit null, root block scalars incl. empty ones, quoted empty strings, defining anchors, defining an anchor and then failing, aliasing an anchor of an earlier document, aliasing an anchor defined nowhere behind a type-level error, a byte-order mark in front of a later document (known finding F57), type error early / late, surplus / missing element, duplicate key, three syntax errors, 60 aliases of one anchor - under every per-document limit, two such documents are over the alias/anchor ratio), with seeded end markers / trailing comments / start marker / implicit starts after `...`, a quarter of them under alias limits that one document stays below but two together exceed, and 5 chunk schedules. For the validated struct target the garde / validator batch (str and slice) and iterator entry points are compared with the plain ones with validation applied per document (incl. runs of null documents and a document failing validation). ALL histories up to length 3 (thorough: 4) are enumerated per target, then random histories of length 2..8. Model: every document is classified on its own (raw parser: syntax error / empty-or-null; from_str alone: value or type-level error); batch, slice-batch, read, read_with_options under each schedule and the four single-document entry points are compared with the list of per-document results and the resynchronisation rules. One evaluation = one library call on the stream. Non-trivial = iterator executions on streams of at least two documents; distinct = distinct (stream text, request trace) digests.".into(),
             assumptions: vec![
                 "single-document entry points are only asserted on streams with at least two content documents".into(),
             ],
